@@ -11,6 +11,8 @@
 (*   valid       the encoding itself                                                *)
 (*   trail       one more byte appended (00 / FF)                                   *)
 (*   trunc_at    cut at the start of a field      trunc_in  cut inside a field      *)
+(*               (after the first / before the last octet; every interior octet of  *)
+(*               a natural or length prefix)                                        *)
 (*   disc        an option / variant / boolean discriminator replaced by a value    *)
 (*               outside its range: first invalid value, 2, 0x7f, 0xff              *)
 (*   len_pm      a length or count prefix +1 / -1                                   *)
@@ -19,6 +21,7 @@
 (*   flip        lowest / highest bit of the first byte of a field flipped          *)
 (*   map_swap    the first two dictionary entries exchanged                         *)
 (*   map_dup     the first dictionary entry written twice (count + 1)               *)
+(*   map_dup2    the first entry repeated after the second (e1 e2 e1 ..., count+1)  *)
 (*   att_len     a length / count prefix replaced by 0, remaining+1, 2^32-1, 2^63,  *)
 (*               2^64-1            att_len2  the same on two prefixes at once       *)
 (*   frame_len   fuzz frame length 0, 1, exact-1, exact+1, 2^32-1                   *)
@@ -62,18 +65,33 @@ Max2V(ty) ==
 
 ReplaceAt1(s, i, x) == [j \in 1..Len(s) |-> IF j = i THEN x ELSE s[j]]
 
+\* A multi-octet natural whose PREFIX octet carries value bits (2^32+7 -> f1 07 00 00 00, 2^24+5 -> e1 05 00 00):
+\* cut short and zero-filled it is still a minimal form, so only a decoder that notices the missing octets rejects it.
+IsWideNat(ty) == ty.k = "nat" /\ ty.w >= 4
+AltNat(ty) == IF ty.w = 8 THEN <<7, 0, 0, 0, 1, 0, 0, 0>> ELSE <<5, 0, 0, 1>>
+\* two keys of a structured key type that agree on every field but the last (same hash, two lengths)
+SharedPrefixKeys(kt) == LET a == MaxV(kt) IN <<a, ReplaceAt1(a, Len(kt.f), Max2V(kt.f[Len(kt.f)].t))>>
+
 Vals(ty) ==
   {MinV(ty), MaxV(ty)} \cup
   (CASE ty.k = "struct" -> {ReplaceAt1(MinV(ty), j, MaxV(ty.f[j].t)) : j \in 1..Len(ty.f)}
                            \cup {ReplaceAt1(MaxV(ty), j, MinV(ty.f[j].t)) : j \in 1..Len(ty.f)}
+                           \cup {ReplaceAt1(MaxV(ty), j, AltNat(ty.f[j].t)) : j \in {j \in 1..Len(ty.f) : IsWideNat(ty.f[j].t)}}
      [] ty.k = "seq" -> {<<MaxV(ty.of)>>, <<MinV(ty.of)>>}
                         \cup (IF ty.max >= 0 THEN {[i \in 1..ty.max |-> MinV(ty.of)]} ELSE {})   \* exactly the permitted maximum
      [] ty.k = "opt" -> {<<MinV(ty.of)>>}
      [] ty.k = "map" -> {<<<<MaxV(ty.key), MaxV(ty.val)>>>>, <<<<MinV(ty.key), MinV(ty.val)>>>>}
+                        \cup (IF ty.key.k = "struct" /\ Len(ty.key.f) >= 2
+                              THEN LET ks == SharedPrefixKeys(ty.key) IN
+                                   {SortPairs(ty.key, <<<<ks[1], MaxV(ty.val)>>, <<ks[2], MinV(ty.val)>>>>),
+                                    SortPairs(ty.key, <<<<ks[1], MinV(ty.val)>>, <<ks[2], MaxV(ty.val)>>, <<Max2V(ty.key), MinV(ty.val)>>>>)}
+                              ELSE {})
      [] ty.k \in {"enum", "frame"} -> UNION {{<<i, MinV(ty.alts[i].t)>>, <<i, MaxV(ty.alts[i].t)>>} : i \in 1..Len(ty.alts)}
      [] ty.k = "nat" -> IF ty.w = 8 THEN {<<127, 0, 0, 0, 0, 0, 0, 0>>, <<128, 0, 0, 0, 0, 0, 0, 0>>, <<255, 63, 0, 0, 0, 0, 0, 0>>,
-                                           <<0, 64, 0, 0, 0, 0, 0, 0>>, <<255, 255, 255, 255, 255, 255, 255, 0>>, <<0, 0, 0, 0, 0, 0, 0, 1>>, Rep(255, 8)}
+                                           <<0, 64, 0, 0, 0, 0, 0, 0>>, <<255, 255, 255, 255, 255, 255, 255, 0>>, <<0, 0, 0, 0, 0, 0, 0, 1>>, Rep(255, 8),
+                                           <<5, 0, 1, 0, 0, 0, 0, 0>>, <<5, 0, 0, 1, 0, 0, 0, 0>>, <<7, 0, 0, 0, 1, 0, 0, 0>>, <<9, 0, 0, 0, 0, 0, 2, 0>>}
                         ELSE {<<127>> \o Zeros(ty.w - 1), <<128>> \o Zeros(ty.w - 1)}
+                             \cup (IF ty.w >= 4 THEN {<<5, 0, 1, 0>>, <<5, 0, 0, 1>>} ELSE {})
      [] ty.k = "blob" -> {Pat(127, 1), Pat(128, 2)}
      [] ty.k = "bool" -> {}
      [] OTHER -> {})
@@ -115,6 +133,7 @@ Mutants(ty, v, K) ==
   \cup {Case("trunc_at", Sub(b, 1, m.p)) : m \in SeqSet(every)}
   \cup {Case("trunc_in", Sub(b, 1, m.p + m.n - 1)) : m \in {m \in SeqSet(every) : m.n >= 1}}
   \cup {Case("trunc_in", Sub(b, 1, m.p + 1)) : m \in {m \in SeqSet(every) : m.n > 2}}
+  \cup UNION {{Case("trunc_in", Sub(b, 1, m.p + j)) : j \in 1..(m.n - 1)} : m \in {m \in SeqSet(every) \cup SeqSet(nats) : m.c \in {"nat", "len"}}}
   \cup {Case("trunc_at", Sub(b, 1, Len(b) - 1)) : x \in {1}}
   \cup UNION {{Case("disc", SetByte(b, m.p, d)) : d \in {SmallNat(m.x), 2, 127, 255} \ (0..(SmallNat(m.x) - 1))} : m \in SeqSet(discs)}
   \cup UNION {{Case("len_pm", Splice(b, m.p, m.n, EncLen(n))) : n \in {SmallNat(m.x) + 1, SmallNat(m.x) - 1} \ {-1}} : m \in SeqSet(lens)}
@@ -135,6 +154,10 @@ Mutants(ty, v, K) ==
                   e2 == SelectSeq(ms, LAMBDA m : m.c = "ent" /\ m.p = e1.p + e1.n)
                   cnt == SmallNat(l.x)
               IN {Case("map_dup", Sub(b, 1, l.p) \o EncLen(cnt + 1) \o Sub(b, e1.p + 1, e1.p + e1.n) \o Sub(b, e1.p + 1, Len(b)))}
+                 \cup (IF Len(e2) >= 1 /\ cnt >= 2
+                       THEN {Case("map_dup2", Sub(b, 1, l.p) \o EncLen(cnt + 1) \o Sub(b, e1.p + 1, e2[1].p + e2[1].n)
+                                              \o Sub(b, e1.p + 1, e1.p + e1.n) \o Sub(b, e2[1].p + e2[1].n + 1, Len(b)))}
+                       ELSE {})
                  \cup (IF Len(e2) >= 1 /\ cnt >= 2
                        THEN {Case("map_swap", Sub(b, 1, e1.p) \o Sub(b, e2[1].p + 1, e2[1].p + e2[1].n)
                                               \o Sub(b, e1.p + 1, e1.p + e1.n) \o Sub(b, e2[1].p + e2[1].n + 1, Len(b)))}
